@@ -266,6 +266,15 @@ def check_case(ctx, case):
     again = back.to_ical().decode("utf-8")
     if again != text:
         ctx.fail("reencode", observed=again, expected=text)
+    # a component written with sorted=False keeps its *properties* in insertion order; the parts of a rule are not properties
+    import icalendar as _ical
+    _ev = _ical.Event()
+    _ev.add("rrule", rec)
+    for flag in (True, False):
+        rl = [l for l in _ev.to_ical(sorted=flag).decode("utf-8").replace("\r\n ", "").split("\r\n") if l.startswith("RRULE:")]
+        if rl != ["RRULE:" + text]:
+            ctx.fail("component-writes-rule-differently", observed=(f"sorted={flag}", rl), expected="RRULE:" + text)
+            return
     # the rule *in use*: as RRULE of an event and of a VTIMEZONE observance that both providers turn into a zone - whatever reads the rule
     # (and whatever it answers), the caller's rule encodes to the same text afterwards
     if want_typed["FREQ"][0][1] in ("YEARLY", "MONTHLY") and "COUNT" not in want_typed or want_typed.get("COUNT", [("int", 10 ** 6)])[0][1] <= 50:
